@@ -43,6 +43,10 @@ def plan(tier, seed):
     for s in shards:
         for naming in ("identity", "adversarial"):
             out.append(dict(s, naming=naming, bound=s["bound"] + f" naming={naming}"))
+    # architectures whose packages exist only because the hierarchy implies them (module_path below root_path):
+    # they are modules like any other and must be found by patterns
+    for s in plan_graph_shards("A", n_max=4, chunk=8):
+        out.append(dict(s, naming="identity", implicit=True, bound=s["bound"] + " ancestors implicit"))
     return {"shards": out, "require_nonzero": ["regex:PASS", "regex:FAIL", "regex:nomatch", "glob:PASS", "glob:FAIL", "glob:nomatch", "batch-subj", "batch-obj"]}
 
 
@@ -122,8 +126,8 @@ def decoy_for(ns, I, seed):
     return build(keep, [(u, v) for u, v in I if u in keep and v in keep], seed)
 
 
-def check_graph(ns, I, seed, res, only=None):
-    ev = build(ns, I, seed)
+def check_graph(ns, I, seed, res, only=None, implicit=False):
+    ev = build(ns, I, seed, implicit=implicit)
     decoy = decoy_for(ns, I, seed)
     viol = []
     non_root = ns[1:]
@@ -242,6 +246,19 @@ def check_graph(ns, I, seed, res, only=None):
                             exp = _conj(parts)
                             if exp is not None and whole != exp:
                                 viol.append(("multi-subject-rule-differs-from-conjunction", key, {"single": parts}, whole))
+                        if sk == ok:
+                            # a subject that is also listed among the objects ([a, b] ... except [a, o])
+                            for verb, imp, exc in SHAPES:
+                                key = ("batch-subj-overlap", xs, o, sk + "/" + ok, verb, imp, exc)
+                                if only and only != key:
+                                    continue
+                                objs = [xs[0], o]
+                                whole = oc(run_rule(mk(verb, imp, exc, sk, xs, ok, objs), ev))
+                                parts = [oc(run_rule(mk(verb, imp, exc, sk, [x], ok, objs), ev)) for x in xs]
+                                note("batch-subj")
+                                exp = _conj(parts)
+                                if exp is not None and whole != exp:
+                                    viol.append(("multi-subject-rule-differs-from-conjunction", key, {"single": parts}, whole))
                         for verb in ("should", "should_not"):
                             for imp in (True, False):
                                 key = ("batch-obj", xs, o, sk + "/" + ok, verb, imp, False)
@@ -274,8 +291,8 @@ def run_shard(shard, tier, seed):
     for ns, I in shard_graphs(shard, seed):
         ns, I = _renamed(ns, I, shard["naming"])
         res.states += 1
-        for kind, key, exp, got in check_graph(ns, I, seed, res):
-            res.violation(kind, {"modules": ns, "imports": I, "key": _j(key), "seed": seed}, exp, got)
+        for kind, key, exp, got in check_graph(ns, I, seed, res, implicit=shard.get("implicit", False)):
+            res.violation(kind, {"modules": ns, "imports": I, "key": _j(key), "seed": seed, "implicit": shard.get("implicit", False)}, exp, got)
         if res.states == 1:
             res.sample({"modules": ns, "imports": I, "regexes": regex_family(ns)[:6], "globs": glob_family(ns)[:6]})
     return res
@@ -291,7 +308,7 @@ def _t(key):
 
 def _check_case(case):
     ns, I = case["modules"], [tuple(e) for e in case["imports"]]
-    v = check_graph(ns, I, case.get("seed", 0), None, only=_t(case["key"]))
+    v = check_graph(ns, I, case.get("seed", 0), None, only=_t(case["key"]), implicit=case.get("implicit", False))
     if v:
         return (v[0][0], v[0][2], v[0][3])
     return None
